@@ -44,10 +44,10 @@ def families():
     F["abf2"] = (x0 + x1, "abf {\n name b\n colvars x0 x1\n fullSamples 2\n}\n", {"dump": "a.dump b", "tf": True, "ncv": 2})
     F["eabf"] = (xe, "abf {\n name b\n colvars x0\n fullSamples 2\n}\n", {"dump": "a.dump b", "tf": True, "ext": True})
     F["ext_harmonic"] = (xe, "harmonic {\n name b\n colvars x0\n centers 0.3\n forceConstant 2.0\n}\n", {"ext": True})
-    F["meta_grid"] = (x0, "metadynamics {\n name b\n colvars x0\n hillWeight 0.2\n hillWidth 2.0\n newHillFrequency 3\n gridsUpdateFrequency 6\n}\n", {"dump": "mt.dump b"})
-    F["meta_nogrid"] = (x0, "metadynamics {\n name b\n colvars x0\n hillWeight 0.2\n hillWidth 2.0\n newHillFrequency 3\n useGrids off\n}\n", {"dump": "mt.dump b"})
-    F["meta_keep"] = (x0, "metadynamics {\n name b\n colvars x0\n hillWeight 0.2\n hillWidth 2.0\n newHillFrequency 2\n gridsUpdateFrequency 4\n keepHills on\n}\n", {"dump": "mt.dump b"})
-    F["meta_wt"] = (x0, "metadynamics {\n name b\n colvars x0\n hillWeight 0.2\n hillWidth 2.0\n newHillFrequency 2\n wellTempered on\n biasTemperature 2000.0\n}\n", {"dump": "mt.dump b"})
+    F["meta_grid"] = (x0, "metadynamics {\n name b\n colvars x0\n hillWeight 0.2\n hillWidth 2.0\n newHillFrequency 3\n gridsUpdateFrequency 6\n}\n", {"dump": "mt.dump b", "model": "meta_grid"})
+    F["meta_nogrid"] = (x0, "metadynamics {\n name b\n colvars x0\n hillWeight 0.2\n hillWidth 2.0\n newHillFrequency 3\n useGrids off\n}\n", {"dump": "mt.dump b", "model": "meta_nogrid"})
+    F["meta_keep"] = (x0, "metadynamics {\n name b\n colvars x0\n hillWeight 0.2\n hillWidth 2.0\n newHillFrequency 2\n gridsUpdateFrequency 4\n keepHills on\n}\n", {"dump": "mt.dump b", "model": "meta_keep"})
+    F["meta_wt"] = (x0, "metadynamics {\n name b\n colvars x0\n hillWeight 0.2\n hillWidth 2.0\n newHillFrequency 2\n wellTempered on\n biasTemperature 2000.0\n}\n", {"dump": "mt.dump b", "model": "meta_wt"})
     F["meta_expand"] = (inj_cv("x0", 0, -1.0, 1.0, 0.5, extra="  expandBoundaries on\n"),
                         "metadynamics {\n name b\n colvars x0\n hillWeight 0.2\n hillWidth 2.0\n newHillFrequency 2\n gridsUpdateFrequency 4\n}\n", {"dump": "mt.dump b", "wide": True})
     F["meta_2d"] = (x0 + x1, "metadynamics {\n name b\n colvars x0 x1\n hillWeight 0.2\n hillWidth 2.0\n newHillFrequency 3\n}\n", {"dump": "mt.dump b", "ncv": 2})
@@ -71,6 +71,12 @@ def model_lines(fam):
                 "M.abf b 1 x0 %s %s %s 2 1 1 1 0 0 0 %s" % (fbits(-3.0), fbits(3.0), fbits(0.5), fbits(1.0)),
                 "M.harm h 1 x0 %s %s" % (fbits(1.5), fbits(0.3)),
                 "M.hist hs 0 1 x0 %s %s %s" % (fbits(-3.0), fbits(3.0), fbits(0.5))]
+    if fam in ("meta_grid", "meta_nogrid", "meta_keep", "meta_wt"):
+        prm = {"meta_grid": (3, 1, 6, 0, 0), "meta_nogrid": (3, 0, 0, 0, 0), "meta_keep": (2, 1, 4, 1, 0), "meta_wt": (2, 1, 2, 0, 1)}[fam]
+        freq, grids, gf, keep, wt = prm
+        return ["M.cv x0 0 %s %s %s 0" % (fbits(0.5), fbits(0.0), fbits(0.0)),
+                "M.meta b 1 x0 weight=%s freq=%d sigmas=%s hillwidth=%s grids=%d gridsfreq=%d keephills=%d wt=%d tkb=%s lo=%s hi=%s expand=0 gper=0" % (
+                    fbits(0.2), freq, fbits(0.5), fbits(2.0), grids, gf, keep, wt, fbits(2000.0 * 0.001987191), fbits(-3.0), fbits(3.0))]
     return None
 
 
